@@ -14,7 +14,7 @@ META = {
     "optional result-format terminal with hostile names; lambda bodies from typed templates over the python-executable subset "
     "(attributes, method calls with omitted defaults and keywords, arithmetic, comparisons, conditionals, tuples, dicts via "
     "dataclass/NamedTuple sugar, nested Select/Where/SelectMany/First/Count, single-for comprehensions, captured values, one-line "
-    "helpers); each program in three supply modes (callable from the file, string, ast) x typed / untyped dataset; monitor: the AST "
+    "helpers, inner fusions with deep name re-use, kw_only dataclasses); callable programs are first built once with OTHER captured values; each program in three supply modes (callable from the file, string, ast) x typed / untyped dataset; monitor: the AST "
     "received by the harness's executor on value(), read by the reference interpreter, vs the SAME python callables run eagerly by a "
     "mirror stream on the in-memory data; repeated after change_extension_functions_to_calls, aggregate_node_transformer, "
     "simplify_chained_calls (each alone and in the order shipped backends use); distinct by dump of the executor AST; non-trivial = the "
